@@ -4,15 +4,19 @@
    `calculate` is Calc/Calc.v, tied to bill/*.go and tax/*.go by the correspondence checks of C01/C03.
 
    currency_doc_wf d      = the 'currency' rule applies; items priced in the document currency declare
-                            its subunits; FIXED advance amounts (and an external rounding) are supplied
-                            at the currency's precision - the hypothesis the property states.
+                            its subunits; FIXED advance amounts are supplied at the currency's precision
+                            - the hypothesis the property states.  Nothing is asked of a supplied
+                            totals.rounding: it is presented at the currency's decimals and that figure is
+                            what payable adds (repair recorded in findings/C03.json; before it the clause
+                            `payable = total_with_tax + rounding` needed the rounding at currency precision).
    currency_identities d t = for c = the currency's decimals, as integers at exponent c:
      every line: total = sum - discounts + charges;  sum = sum of line totals;
      total = sum - discount + charge - tax_included;
      every rate group: amount = rha(base * percent), surcharge likewise, exempt groups 0;
      category amount = sum of its groups, category surcharge = sum of its groups' surcharges;
      tax sum = ordinary categories - retained ones (surcharges included); totals.tax = tax sum;
-     total_with_tax = total + tax;  payable = total_with_tax + rounding;  due = payable - advances,
+     total_with_tax = total + tax;  payable = total_with_tax + rounding (the PRESENTED totals.rounding,
+     t_rounding, itself at exponent c);  due = payable - advances,
      advances = sum of advance rows;  and no figure carries more decimals than the currency. *)
 From Coq Require Import ZArith List Bool String.
 From Verif Require Import Base.Wire Base.Rha Num.Amount Calc.Doc Calc.Calc Calc.CurrencySpec Calc.CurrencyProofs.
@@ -23,6 +27,13 @@ Theorem currency_rule_every_presented_amount_readds d t :
   currency_doc_wf d -> calculate d = Totals t -> currency_identities d t.
 Proof. exact (currency_rule_readds d t). Qed.
 Print Assumptions currency_rule_every_presented_amount_readds.
+
+(* the presented totals.rounding is the supplied one rounded half away from zero to the currency *)
+Theorem currency_rule_presented_rounding d t :
+  currency_doc_wf d -> calculate d = Totals t ->
+  t_rounding t = match d_rounding d with Some r => Some (rescale r (d_c d)) | None => None end.
+Proof. exact (currency_rule_rounding d t). Qed.
+Print Assumptions currency_rule_presented_rounding.
 
 (* the line clause on its own: it needs no hypothesis on discounts/charges at all, because line
    discount and charge amounts follow the rounding rule (repair recorded in findings/C03.json) *)
@@ -51,4 +62,19 @@ Proof.
   cbv zeta. split.
   - unfold currency_doc_wf. cbn. repeat split; repeat constructor; cbn; intros; auto.
   - eexists. split; [vm_compute; reflexivity|]. split; reflexivity.
+Qed.
+
+(* the witness of the repair: EUR, 2 x 100.00 at 21% VAT, supplied totals.rounding 0.005 (three decimals):
+   inside the hypotheses, presented rounding 0.01, payable 242.01 = 242.00 + 0.01 *)
+Example rounding_with_more_decimals_than_the_currency :
+  let d := mkDoc 2 true [] 1
+             [mkLine (mkA 2 0) (mkItem (mkA 10000 2) None []) [] [] []
+                     [mkCombo (bs "VAT"%string) [] [] (Some (mkA 210 3)) None false []]]
+             [] [] [] [] [] (Some (mkA 5 3)) in
+  currency_doc_wf d /\
+  exists t, calculate d = Totals t /\ t_twt t = mkA 24200 2 /\ t_rounding t = Some (mkA 1 2) /\ t_payable t = mkA 24201 2.
+Proof.
+  cbv zeta. split.
+  - unfold currency_doc_wf. cbn. repeat split; repeat constructor; cbn; intros; auto.
+  - eexists. split; [vm_compute; reflexivity|]. repeat split; reflexivity.
 Qed.
